@@ -197,6 +197,21 @@ class ContV(V):
         return '%s<%r len=%r>' % (self.kind, self.term, self.len)
 
 
+class LazyIterV(V):
+    """a lazy iterator adaptor chain (map / filter / flatten / flat_map / chain / ... over a bounded source), kept as the
+    expression that built it.  `next()` yields None or an ARBITRARY element of the sequence it denotes (models.m_lazy_next):
+    order and multiplicity are abstracted away, membership is exact."""
+
+    def __init__(self, kind, inner=None, clo=None, other=None):
+        self.kind = kind
+        self.inner = inner
+        self.clo = clo
+        self.other = other
+
+    def __repr__(self):
+        return 'lazyiter<%s %r%s>' % (self.kind, self.inner, (' + %r' % (self.other,)) if self.other is not None else '')
+
+
 class Opaque(V):
     def __init__(self, ty, tag=''):
         self.ty = ty
@@ -1926,7 +1941,13 @@ class Interp:
             nf.bb = 0
             return None
         # library model
-        from .models import norm
+        from .models import norm, lazy_iter_model
+        lm = lazy_iter_model(self, st, cands, args)
+        if lm is not None:
+            self.stats['modelled'] += 1
+            self.models_used.add(cands[0][0] + ' (lazy iterator chain)')
+            out = lm(self, st, fr, t, args, cands[0][1])
+            return self.finish_model(st, fr, t, out)
         for path, ga in cands:
             m = self.models.get(norm(path))
             if m is not None:
@@ -1934,8 +1955,40 @@ class Interp:
                 self.models_used.add(path)
                 out = m(self, st, fr, t, args, ga)
                 return self.finish_model(st, fr, t, out)
-        # lossless primitive conversions  <T as From<U>>::from  for numeric T, U: the value is unchanged
         import re as _re
+        # operator traits on primitive integers with reference operands (`x >> &n`, `&a + &b`): the primitive operation on
+        # the dereferenced operands, with the overflow / shift-amount check the inherited overflow checks perform
+        for path, ga in cands:
+            mm = _re.match(r"^<&?(?:'\w+ )?(\w+) as core::ops::(?:bit|arith)::(Shr|Shl|Add|Sub|Mul|BitAnd|BitOr|BitXor|Div|Rem)<&?(?:'\w+ )?(\w+)>>::\w+$", path)
+            if mm and len(args) == 2 and mm.group(1) in INT_RANGES:
+                a_ = self.deref(st, args[0]) if isinstance(args[0], RefV) else args[0]
+                b_ = self.deref(st, args[1]) if isinstance(args[1], RefV) else args[1]
+                if isinstance(a_, Num) and isinstance(b_, Num):
+                    op_, ity = mm.group(2), mm.group(1)
+                    ty_ = {'k': 'int' if ity.startswith('i') else 'uint', 'n': ity, 's': ity}
+                    r_ = self.binop(st, fr, op_, a_, b_, ty_, t.get('span', ''))
+                    bits = {'u8': 8, 'i8': 8, 'u16': 16, 'i16': 16, 'u32': 32, 'i32': 32, 'u64': 64, 'i64': 64, 'usize': 64, 'isize': 64}[ity]
+                    if op_ in ('Shr', 'Shl'):
+                        cond = cmp_term('Lt', b_.term, bits)
+                    elif isinstance(r_, Num) and op_ in ('Add', 'Sub', 'Mul'):
+                        raw = {'Add': a_.term + b_.term, 'Sub': a_.term - b_.term, 'Mul': a_.term * b_.term}[op_]
+                        lo_, hi_ = INT_RANGES[ity]
+                        cond = band(cmp_term('Ge', raw, lo_), cmp_term('Le', raw, hi_))
+                        r_ = Num(raw, ity)
+                    else:
+                        cond = None
+                    if cond is not None:
+                        ok = st.ctx.decide(cond)
+                        key = 'overflow:%s@%s#%s' % (op_, fr.fn['path'], self.site_ordinal(fr, fr.bb))
+                        st.obligations.append(Obligation('overflow:' + op_, fr.fn['path'], t.get('span', ''), '%s on references: %r, %r' % (op_, a_.term, b_.term),
+                                                         'discharged' if ok is True else ('violated' if ok is False else 'unknown'), key))
+                        if ok is False:
+                            return self.finish_model(st, fr, t, ('panic', 'attempt to %s with overflow' % op_.lower()))
+                        if ok is None:
+                            st.ctx.assume(cond)
+                    self.models_used.add('core::ops on primitive references (%s)' % op_)
+                    return self.finish_model(st, fr, t, r_)
+        # lossless primitive conversions  <T as From<U>>::from  for numeric T, U: the value is unchanged
         for path, ga in cands:
             mm = _re.match(r'^core::convert::num::<impl core::convert::From<(\w+)> for (\w+)>::from$', path)
             if mm and len(args) == 1 and isinstance(args[0], Num):
